@@ -24,7 +24,7 @@ from eliot.testing import swap_logger
 ID = "C07"
 LEVEL = "fault_enumeration"
 SHARDS = 4
-CASE_TIMEOUT = 20
+CASE_TIMEOUT = 300  # generous: a loaded machine must not turn a slow case into a reported hang
 RULE = (
     "programs = forests <= N nodes x <= k deviations over {message api incl. typed with raising "
     "serializer, 6+20 field sets (20 hostile: lock / generator / uncopyable object / 600-deep list, raising __str__/__repr__, non-str dict keys, ints beyond "
@@ -53,7 +53,7 @@ EXIT_MAP = [0, 1, 6, 3, 16, 17, 4, 11, 18, 19, 20, 21]  # 21: exception whose ex
 def BOUNDS(tier):
     if tier == "quick":
         return {"plans": [[1, 3], [2, 2], [3, 1]], "raises": 1, "kinds": 2}
-    return {"plans": [[1, 3], [2, 2], [3, 1]], "raises": 2, "kinds": 3}
+    return {"plans": [[1, 3], [2, 2], [3, 1]], "raises": 2, "kinds": 4}
 
 
 def thread_harnesses(tier):
@@ -114,7 +114,7 @@ def cases(unit, tier):
         yield {"prog": q, "raises": BOUNDS(tier)["raises"], "kinds": BOUNDS(tier)["kinds"]}
 
 
-KIND_MAP = [None, 1, 4, 2, 3]  # alternative -> flt.KINDS index (ValueError, StrRaises, OSError, DestError)
+KIND_MAP = [None, 1, 5, 4, 2, 3]  # alternative -> flt.KINDS index (ValueError, class without a module name, StrRaises, OSError, DestError)
 
 
 class NoCopyDest(flt.Dest):
@@ -192,7 +192,7 @@ def run_case(case):
                 viol.append((sig, {"sink": sink, "devs": [list(x) for x in dev], "d": repr(d)[:300]}))
             if len(viol) > 4:
                 break
-        for alt in (1, 2):
+        for alt in (1, 2, 3):
             a, it = execute(prog, sink, {}, lambda i, lab: alt)
             execs += 1
             for sig, d in it.problems:
